@@ -49,6 +49,16 @@ CLAIMED = {
         technique="flag patterns enumerated; symbolic execution of both descriptions + z3 equivalence queries; supplied-set "
                   "oracle by evaluation; counterexamples replayed on the real pipeflow",
         design="4/C04"),
+    "C05": dict(
+        text="Bounded model checking of the iteration driver: finalize_iteration / set_damping_factor are executed "
+             "symbolically on arbitrary error histories, residuals, tolerances and alpha (NaN-ness enumerated), all paths "
+             "explored, and z3 proves the verdict post-conditions and the alpha / restore bookkeeping; the real "
+             "newton_raphson is executed with the per-iteration solve replaced by fresh symbolic iterates for every history "
+             "up to the iteration budget; the real pipeflow is run over all verdict sequences on one net object (failure => "
+             "exception, not converged, no number in any result table).",
+        technique="symbolic execution (fork-complete) of the real driver code + z3 per path; call sequences enumerated; "
+                  "counterexamples replayed on the real functions with floats",
+        design="4/C05"),
     "C06": dict(
         text="Two-run equivalence by bounded model checking of the real code: the base description and a relabelled / "
              "row-permuted / differently created description are both executed symbolically from the same arbitrary state "
